@@ -51,8 +51,7 @@ func vpBigEq(x *decimal.Big, neg bool, coef uint64, exp int) bool {
 
 func vpNumParamExp(name string, cb int, lo, hi int) vpNum {
 	n := vpNum{}
-	n.coef = vpUint64(name + "c")
-	vpAssume(n.coef < uint64(cb))
+	n.coef = vpCoef(name+"c", cb)
 	n.exp = lo + vpChoice(name+"e", hi-lo+1)
 	n.neg = vpBool(name + "n")
 	return n
